@@ -3,10 +3,12 @@ package rules
 
 import (
 	"encoding/json"
+	"fmt"
 	"go/token"
 	"go/types"
 	"os"
 	"path/filepath"
+	"strings"
 	"sync"
 
 	"golang.org/x/tools/go/ssa"
@@ -359,7 +361,148 @@ func wrapWithErrorDiscipline() {
 			run(c)
 			checkDroppedErrors(c, "RE1", pkgs...)
 			checkLostErrors(c, "RE2", pkgs...)
+			checkStaleErrReturns(c, "RE3", pkgs...)
 		}
-		pr.Explanation += " Generic error discipline in the property's packages: (RE1) the error result of a call to a function of this module is used, the drops confirmed by reading are tabled and may not grow; (RE2) an error value that is assigned, built or loaded is read on some path (no assignment to a shadowing err, no dead store that falls through to a nil return)."
+		pr.Explanation += " Generic error discipline in the property's packages: (RE1) the error result of a call to a function of this module is used, the drops confirmed by reading are tabled and may not grow; (RE2) an error value that is assigned, built or loaded is read on some path (no assignment to a shadowing err, no dead store that falls through to a nil return); (RE3) no exit returns only zero values together with an error variable that the path has found to be nil."
 	}
+}
+
+// checkValidationExact: the configuration validators accept enumerated values (auth scopes, plugin ops, bandwidth
+// limit mode, …) only in the exact spelling the consumers compare with. The consumers use == / slices.Contains; a
+// validator that folds case (EqualFold, ToLower, ToUpper) accepts a spelling that later matches nothing — the option is
+// silently not in force. Case folding in package validation is allowed only where the value is *normalised for
+// comparison with another configured value* (custom domain vs. subdomain host).
+func checkValidationExact(c *engine.Ctx, rule string) {
+	c.Rule(rule, "package validation folds letter case only when it compares a custom domain with the subdomain host; enumerated options are validated in the exact spelling their consumers compare with")
+	p := c.P
+	n, folds := 0, 0
+	subF := p.Field("pkg/config/v1", "ServerConfig", "SubDomainHost")
+	for _, f := range p.RepoFuncs() {
+		if f.Pkg == nil || !strings.HasSuffix(f.Pkg.Pkg.Path(), "/pkg/config/v1/validation") {
+			continue
+		}
+		n++
+		f := f
+		engine.ForEachInstr(f, func(in ssa.Instruction) {
+			call, ok := in.(*ssa.Call)
+			if !ok {
+				return
+			}
+			o := engine.CalleeObj(call)
+			if o == nil || o.Pkg() == nil || o.Pkg().Path() != "strings" || !(o.Name() == "EqualFold" || o.Name() == "ToLower" || o.Name() == "ToUpper") {
+				return
+			}
+			// only comparisons with an enumeration are of interest: the folded value meets a package-level list or a
+			// constant (membership test, EqualFold, ==); a fold that feeds a format check is not
+			enum := false
+			hasEnum := func(v ssa.Value) bool {
+				src := engine.Provenance(v, engine.ProvOpts{})
+				for g := range src.Globals {
+					if _, isSl := engine.Deref(g.Type()).Underlying().(*types.Slice); isSl {
+						return true
+					}
+				}
+				if k, ok := engine.Unwrap(v).(*ssa.Const); ok && k.Value != nil {
+					return true
+				}
+				for k := range src.Consts {
+					if strings.HasPrefix(k, "\"") && len(k) > 2 {
+						return true // a literal list of spellings
+					}
+				}
+				// the element parameter of a predicate closure handed to a helper together with a package-level list
+				if pr, ok := engine.Unwrap(v).(*ssa.Parameter); ok && pr.Parent() != nil && pr.Parent().Parent() != nil {
+					found := false
+					engine.ForEachInstr(pr.Parent().Parent(), func(x ssa.Instruction) {
+						cc, ok := x.(ssa.CallInstruction)
+						if !ok {
+							return
+						}
+						usesClosure, hasList := false, false
+						for _, a := range cc.Common().Args {
+							if mc, ok := a.(*ssa.MakeClosure); ok && mc.Fn == ssa.Value(pr.Parent()) {
+								usesClosure = true
+							}
+							for g := range engine.Provenance(a, engine.ProvOpts{}).Globals {
+								if _, isSl := engine.Deref(g.Type()).Underlying().(*types.Slice); isSl {
+									hasList = true
+								}
+							}
+						}
+						if usesClosure && hasList {
+							found = true
+						}
+					})
+					return found
+				}
+				return false
+			}
+			if o.Name() == "EqualFold" {
+				enum = hasEnum(call.Call.Args[0]) || hasEnum(call.Call.Args[1])
+			} else if refs := call.Referrers(); refs != nil {
+				for _, r := range *refs {
+					switch x := r.(type) {
+					case *ssa.BinOp:
+						if x.Op == token.EQL || x.Op == token.NEQ {
+							enum = enum || hasEnum(x.X) || hasEnum(x.Y)
+						}
+					case *ssa.Call:
+						if co := engine.CalleeObj(x); co != nil && (co.Name() == "Contains" || co.Name() == "Every" || co.Name() == "EqualFold" || co.Name() == "Index" || co.Name() == "ContainsBy") {
+							for _, a := range x.Call.Args {
+								if a != ssa.Value(call) && hasEnum(a) {
+									enum = true
+								}
+							}
+						}
+					}
+				}
+			}
+			if !enum {
+				return
+			}
+			folds++
+			// allowed: an operand derives from SubDomainHost, or from a parameter of a helper whose callers pass it
+			okDomain := false
+			root := f
+			for root.Parent() != nil {
+				root = root.Parent()
+			}
+			var callers []*ssa.Function
+			for _, g := range p.RepoFuncs() {
+				if g.Pkg == f.Pkg {
+					callers = append(callers, g)
+				}
+			}
+			for _, a := range call.Call.Args {
+				if subF != nil && provThroughCallers(a, root, callers...).HasField(subF) {
+					okDomain = true
+				}
+			}
+			// the sibling operand of a comparison against the lowered subdomain host (the custom domain itself)
+			if !okDomain && subF != nil {
+				engine.ForEachInstr(f, func(x ssa.Instruction) {
+					cc, ok := x.(*ssa.Call)
+					if !ok {
+						return
+					}
+					uses, sub := false, false
+					for _, a := range cc.Call.Args {
+						src := engine.Provenance(a, engine.ProvOpts{})
+						if src.CallIns[call] {
+							uses = true
+						}
+						if provThroughCallers(a, root, callers...).HasField(subF) {
+							sub = true
+						}
+					}
+					if uses && sub {
+						okDomain = true
+					}
+				})
+			}
+			c.Check(okDomain, fmt.Sprintf("%s>%s#%d", p.FuncName(f), o.Name(), folds), in.Pos(), 2, nil,
+				"case folding in a validator only normalises a custom domain against the subdomain host (an enumerated option accepted in another spelling matches nothing later)")
+		})
+	}
+	c.Floor(n, 10)
 }
